@@ -735,3 +735,29 @@ def swap_shortcut_rule(ctx, rid):
             ctx.ob(rid, f'{ps.qual}._act_on_fallback_:swap-shortcut:e={e}:shift={s}', ok,
                    '' if ok else f'SwapPowGate(exponent={e}, global_shift={s}) is not the SWAP matrix, yet the product state only exchanges the bookkeeping of the two qubits',
                    ps.mod.rel, g.lineno, construct=f'{ps.qual}._act_on_fallback_:swap-shortcut')
+
+
+def controlled_special_case_rule(ctx, rid):
+    """Code that special-cases ControlledGate / ControlledOperation must look at the control values: a controlled gate is not 'fires iff all controls are 1'."""
+    repo = ctx.repo
+    ctx.rule(rid, 'controlled special-casing: every function (outside contrib) that tests isinstance(x, ControlledGate / ControlledOperation) and then treats x specially '
+             'reads x.control_values (anti-controls, mixed and sum-of-product controls are part of the gate)', floor=8, style='COH')
+    n = 0
+    for m in sorted(repo.modules.values(), key=lambda x: x.rel):
+        if '/testing/' in m.rel or '/contrib/' in m.rel:
+            continue
+        for fn in [f for f in ast.walk(m.tree) if isinstance(f, ast.FunctionDef)]:
+            subj = set()
+            for c in ast.walk(fn):
+                if isinstance(c, ast.Call) and call_name(c) == 'isinstance' and len(c.args) == 2 and isinstance(c.args[0], ast.Name) \
+                        and any(t.split('.')[-1] in ('ControlledGate', 'ControlledOperation') for t in
+                                ([ast.unparse(e) for e in c.args[1].elts] if isinstance(c.args[1], ast.Tuple) else [ast.unparse(c.args[1])])):
+                    subj.add(c.args[0].id)
+            for s_ in sorted(subj):
+                n += 1
+                reads = {a.attr for a in ast.walk(fn) if isinstance(a, ast.Attribute) and isinstance(a.value, ast.Name) and a.value.id == s_}
+                ok = 'control_values' in reads or '_control_values' in reads
+                ctx.ob(rid, f'{m.name}.{fn.name}:{s_}', ok, '' if ok else f'{fn.name} singles out controlled gates (`{s_}`) and reads {sorted(reads)} but never control_values: '
+                       'a gate controlled on 0 or on a sum of products is handled as if it fired on all-ones', m.rel, fn.lineno)
+    if n == 0:
+        raise AnalysisError('no special-casing of ControlledGate / ControlledOperation left')
